@@ -16,6 +16,7 @@ from vc2_conformance.decoder.exceptions import (
     FragmentedPictureRestarted,
     PictureNumberChangedMidFragmentedPicture,
     TooManySlicesInFragmentedPicture,
+    FragmentSlicesWithoutFragmentedPicture,
     FragmentSlicesNotContiguous,
 )
 
@@ -85,6 +86,15 @@ def fragment_header(state):
 
         state["_picture_initial_fragment_offset"] = fragment_offset
     else:
+        # (14.2) Fragments containing slices must be preceded (in the same
+        # sequence) by a fragment with fragment_slice_count==0 which starts
+        # the fragmented picture
+        if "_picture_initial_fragment_offset" not in state:
+            raise FragmentSlicesWithoutFragmentedPicture(
+                fragment_offset,
+                state["fragment_slice_count"],
+            )
+
         # (14.2) Appart from when fragment_slice_count==0, the picture number
         # must not change
         if state["_last_picture_number"] != state["picture_number"]:
